@@ -9,16 +9,16 @@
 (***************************************************************************)
 EXTENDS Session, Json
 CONSTANTS Emit, Mode,
-          Kj1, Kj2, Kj3, Kf1, Kf2, Kr1, Kr2, Kc1, Kc2, Kc3, Km1, Km2, Kn1, Krn1, Ff1, Ff2,   \* measured on the real jobs by the harness (context reads per render)
+          Kj1, Kj2, Kj3, Kf1, Kf2, Kr1, Kr2, Kc1, Kc2, Kc3, Km1, Km2, Kn1, Krn1, Kk1, Kk2, Ff1, Ff2,   \* measured on the real jobs by the harness (context reads per render)
           Bm1, Bm2                                                               \* build steps of the two pipelines observed step by step
-MJobs == {"j1", "j2", "j3", "f1", "f2", "r1", "r2", "c1", "c2", "c3", "m1", "m2", "n1", "rn1"}
+MJobs == {"j1", "j2", "j3", "f1", "f2", "r1", "r2", "c1", "c2", "c3", "m1", "m2", "n1", "rn1", "k1", "k2"}
 MK == [j1 |-> Kj1, j2 |-> Kj2, j3 |-> Kj3, f1 |-> Kf1, f2 |-> Kf2, r1 |-> Kr1, r2 |-> Kr2, c1 |-> Kc1, c2 |-> Kc2, c3 |-> Kc3,
-       m1 |-> Km1, m2 |-> Km2, n1 |-> Kn1, rn1 |-> Krn1]
+       m1 |-> Km1, m2 |-> Km2, n1 |-> Kn1, rn1 |-> Krn1, k1 |-> Kk1, k2 |-> Kk2]
 MF == [j1 |-> NoFail, j2 |-> NoFail, j3 |-> NoFail, f1 |-> Ff1, f2 |-> Ff2, r1 |-> NoFail, r2 |-> NoFail,
-       c1 |-> NoFail, c2 |-> NoFail, c3 |-> NoFail, m1 |-> NoFail, m2 |-> NoFail, n1 |-> NoFail, rn1 |-> NoFail]   \* f1 / f2 fail after that many reads
+       c1 |-> NoFail, c2 |-> NoFail, c3 |-> NoFail, m1 |-> NoFail, m2 |-> NoFail, n1 |-> NoFail, rn1 |-> NoFail, k1 |-> NoFail, k2 |-> NoFail]   \* f1 / f2 fail after that many reads
 \* (the build phase of the other jobs is not observed step by step: it is part of their first step)
 MB == [j \in MJobs |-> IF j = "m1" THEN Bm1 ELSE IF j = "m2" THEN Bm2 ELSE 0]
-HistJobs == {"j1", "j3", "f1", "f2", "r1", "r2", "c1", "c2", "c3", "n1", "rn1"}
+HistJobs == {"j1", "j3", "f1", "f2", "r1", "r2", "c1", "c2", "c3", "n1", "rn1", "k1", "k2"}
 MThreads == IF Mode = "t3" THEN {"t1", "t2", "t3"} ELSE IF Mode \in {"t2", "t2b", "t2f"} THEN {"t1", "t2"} ELSE {"t1"}
 MProgSet ==
   CASE Mode = "t2" -> {[t1 |-> <<"j1">>, t2 |-> <<"j2">>]}
